@@ -51,6 +51,10 @@ class Run:
         self.strategy = Scripted(hooks, record_snapshots=record_snapshots)
         px = prices if prices is not None else world.frames["prices"]
         px = px.drop(columns=["USD"]) if "USD" in px.columns else px
+        self.price_input = px  # the very frame object handed to Actuator.set_price (C02 digests it before and after the run)
+        from .base import frame_digest
+
+        self.price_input_digest = frame_digest(px)
         self.act = make_actuator([a.market for a in ctx.adapters], assets, self.strategy, px, quote, interval=interval)
         ctx.broker = self.act.broker
         ctx.prices = self.act.token_prices if hasattr(self.act, "token_prices") else px
